@@ -508,3 +508,78 @@ pub fn run_balanced(sim: &Sim, _idx: u64) {
         v14(sim, "run-hangs", "the scenario did not finish within the virtual horizon".into());
     }
 }
+
+/// `Endpoint::connect_timeout`: a connection attempt that neither fails nor succeeds (the peer
+/// black-holes the SYN) or succeeds only after the timeout is given up after `connect_timeout`, on
+/// eager and on lazy channels alike; the call that triggered it gets a definite error and the next
+/// call, with the endpoint reachable again, succeeds.
+pub fn run_connect_timeout(sim: &Sim, _idx: u64) {
+    let lazy = sim.chance(1, 2);
+    let t_ms = sim.pick(&[50u64, 2_000]);
+    let t = Duration::from_millis(t_ms);
+    let first_delay_us: u64 = match sim.draw(3) {
+        0 => 1_000_000_000_000, // never completes
+        1 => t_ms * 1_000 + sim.pick(&[1_000u64, 500_000]),
+        _ => t_ms * 3_000,
+    };
+    let netcfg = NetCfg::ideal();
+    sim.nontrivial();
+    sim.sample(|| format!("{} channel, connect_timeout {t:?}, first attempt would take {first_delay_us}us", if lazy { "lazy" } else { "eager" }));
+    sim.ev(|| format!("config: lazy={lazy} connect_timeout={t:?} first_delay_us={first_delay_us}"));
+    sim.fault("connect-attempt-outlasts-connect-timeout");
+    let out = run_sim(sim, Duration::from_secs(1_000_000), || async {
+        let (_net, connector, rx) = net_and_connector(sim, netcfg, vec![ConnectStep::Ok { delay_us: first_delay_us }]);
+        let handler = Handler::new(sim);
+        for i in 0..8u64 {
+            handler.add_script(i, Script { msgs: vec![b"pong".to_vec()], ..Default::default() });
+        }
+        let _srv = spawn_server::<std::future::Pending<()>>(&handler, &no_comp(), &ServerOpts::default(), rx, None);
+        let ep = endpoint(&ClientOpts::default()).connect_timeout(t);
+        let slack = Duration::from_millis(200);
+        let ch = if lazy {
+            ep.connect_with_connector_lazy(connector.clone())
+        } else {
+            let t0 = tokio::time::Instant::now();
+            match tokio::time::timeout(Duration::from_secs(600), ep.connect_with_connector(connector.clone())).await {
+                Err(_) => return v14(sim, "eager-connect-hangs", format!("connect_timeout {t:?}: connect() did not resolve within 600 virtual seconds")),
+                Ok(Ok(_)) => return v14(sim, "connect-timeout-not-enforced", format!("connect_timeout {t:?}: connect() succeeded with an attempt that takes {first_delay_us}us")),
+                Ok(Err(_)) => {
+                    if t0.elapsed() > t + slack || t0.elapsed() + Duration::from_millis(1) < t {
+                        v14(sim, "connect-timeout-not-enforced", format!("connect_timeout {t:?}: connect() failed after {:?}", t0.elapsed()));
+                    }
+                    sim.probe("eager-connect-timed-out");
+                    return;
+                }
+            }
+        };
+        let t0 = tokio::time::Instant::now();
+        match one_call(&ch, 1).await {
+            None => return v14(sim, "call-hangs", format!("lazy channel, connect_timeout {t:?}: the call that triggered the hanging attempt did not complete within 120 virtual seconds")),
+            Some(Ok(_)) => return v14(sim, "connect-timeout-not-enforced", format!("connect_timeout {t:?}: the call succeeded over an attempt that takes {first_delay_us}us")),
+            Some(Err((c, m))) => {
+                if t0.elapsed() > t + slack {
+                    v14(sim, "connect-timeout-not-enforced", format!("connect_timeout {t:?}: the call failed only after {:?} ({c:?} {m:?})", t0.elapsed()));
+                }
+                sim.probe("lazy-connect-timed-out");
+            }
+        }
+        tokio::time::sleep(Duration::from_secs(1)).await;
+        let mut last = None;
+        for k in 0..2 {
+            last = one_call(&ch, 2 + k).await;
+            match &last {
+                None => return v14(sim, "call-hangs", "a call after the timed-out attempt did not complete within 120 virtual seconds".into()),
+                Some(Ok(_)) => break,
+                Some(Err(_)) => tokio::time::sleep(Duration::from_secs(1)).await,
+            }
+        }
+        match last {
+            Some(Ok(_)) => sim.probe("recovered-after-connect-timeout"),
+            Some(Err((c, m))) => v14(sim, "call-fails-although-endpoint-reachable", format!("after a timed-out attempt two calls at quiescent points failed: {c:?} {m:?}")),
+            None => {}
+        }
+    });
+    if out.is_none() {
+        v14(sim, "run-hangs", "the scenario did not finish within the virtual horizon".into());
+    }
+}
